@@ -152,7 +152,7 @@ def compare(case, m, els, start, dt, steps, grid):
                 return "%s(%r) = %r, explicit Euler gives %r" % (name, t, g, w)
     return None
 
-case = {'start': 0.0, 'dt': 0.5, 'steps': 4, 'elements': [('constant', 'c1', -2.0), ('constant', 'c2', 1.0), ('converter', 'v0', 'F_lookup(((c1 * c1) + (0.5 - c1)))'), ('converter', 'v1', 'c1'), ('flow', 'f0', 'F_step(c1, 2.5)'), ('biflow', 'f1', 'v1'), ('stock', 's0', (-3.0, ['f1'], [], None)), ('stock', 's1', (-3.0, [], ['f1'], None))], 'dt2': 0.25, 'edit': ('c1', 0.25)}
+case = {'start': 1.0, 'dt': 0.05, 'steps': 4, 'elements': [('constant', 'c1', -2.0), ('constant', 'c2', 1.0), ('converter', 'v0', 'T'), ('converter', 'v1', '(c1 - DT)'), ('biflow', 'f0', '((v0 + DT) + DT)'), ('stock', 's0', (0.0, [], ['f0'], '(F_delay(v0, 1.0, (-1.0)) * DT)')), ('stock', 's1', (0.0, ['f0'], [], 'F_pulse(c1, 1.0, 0.0)'))], 'dt2': 0.025}
 bad = run(case)
 print("model:", case)
 print("FAIL: " + bad if bad else "PASS")
